@@ -864,7 +864,8 @@ impl Arena {
       return Err(Error::ReadOnly);
     }
 
-    if mem::size_of::<T>() == 0 {
+    // a zero-sized `T` occupies nothing, but the bytes behind it still start where a `T` may live
+    if mem::size_of::<T>() == 0 && (mem::align_of::<T>() == 1 || extra == 0) {
       return self.alloc_bytes_in(extra);
     }
 
